@@ -764,6 +764,8 @@ def monitor_stage(ev):
                     continue
                 if ev.pid == "C10" and e["ev"] != "query":
                     continue
+                if ev.pid == "C03" and e["ev"] not in ("sub", "reply"):
+                    continue
                 f.write(line)
                 n += 1
                 k = f'{e["kind"]}:{"ok" if e["ok"] else "err"}'
@@ -804,7 +806,7 @@ def check_chain(tier, ev):
         chain_trace_stage(ev, 40 if tier == "quick" else 400, 25)
         if "stake" in c["cfgs"]:
             chain_trace_stage(ev, 20 if tier == "quick" else 200, 25, stake=True)
-    if pid in ("C01", "C10"):
+    if pid in ("C01", "C03", "C10"):
         monitor_stage(ev)
 
 
